@@ -25,3 +25,33 @@ PROPS['C15'] = dict(
     trusted_base=['model Mkdb/Model/LRU.lean hand-written from storage/lru.go; tied by step-by-step correspondence on '
                   'return values and the full recency list'],
 )
+
+STORAGE_CONSTS = ['const.storage.' + n for n in (
+    'pageSize', 'internalNodeHeaderSize', 'leafNodeHeaderSize', 'offsetElemSize', 'nodeCellSize', 'maxValueSize',
+    'leafNodeCellSize', 'maxInternalNodeCells', 'maxLeafNodeCells', 'InternalNode', 'LeafNode')]
+
+PROPS['C12'] = dict(
+    lean=['Mkdb.Props.C12'],
+    facts=STORAGE_CONSTS + ['layout.btreeNode.encodeLeaf', 'layout.btreeNode.encodeInternal',
+                            'layout.btreeNode.decodeLeaf', 'layout.btreeNode.decodeInternal',
+                            'panics.storage.fileStore.fetch', 'panics.storage.btreeNode.encodeLeaf',
+                            'panics.storage.btreeNode.decodeLeaf', 'panics.storage.btreeNode.decodeInternal',
+                            'skeleton.storage.fileStore.fetch', 'skeleton.storage.fileStore.update'],
+    runs=[dict(cmd='page', proto='page')],
+    claim='Proof: C12_leaf, C12_internal, C12_roundtrip (every node within capacity - any cell count up to the maximum, '
+          'any value bytes up to maxValueSize, any flags, any 64-bit offsets/LSNs - encodes to exactly pageSize bytes and '
+          'decodes, through the first-byte dispatch, to the same node), C12_fits (capacity arithmetic over the constants '
+          'regenerated from storage/page.go, by decide) and C12_dispatch are Lean theorems about a byte-level model of '
+          'encodeLeaf/encodeInternal/decodeLeaf/decodeInternal/fetch. Tie: constants and binary.Write/Read field layouts '
+          'are re-extracted from the source every run; the model\'s bytes and decode are compared with '
+          'fileStore.update -> cold fileStore.fetch on exhaustive small shapes, random shapes, over-capacity nodes and '
+          'damaged page images.',
+    note='Trusted: Lean kernel, the hand-written codec model, encoding/binary + bytes.Buffer semantics (modelled), the '
+         'harness. Offset arrays are identity in every node the engine builds; heap dumps in C01/C11 runs show the array.',
+    rule='exhaustive: leaf cell counts 0..9 x sibling-flag combinations x value sizes {0,1,399,400} x tombstone patterns; '
+         'internal nodes at 0,1,2,144,145,289,290 cells; random nodes within capacity; nodes over capacity (panic path); '
+         'damaged images (cut short, header bytes overwritten). Non-trivial: a within-capacity node with >= 1 cell; '
+         'distinct by node text.',
+    assumptions=['encoding/binary little-endian fixed-width semantics', 'bytes.Buffer.Read/Next semantics as modelled in Mkdb/Model/Bin.lean'],
+    trusted_base=['model Mkdb/Model/Page.lean + Mkdb/Model/Bin.lean hand-written from storage/page.go'],
+)
